@@ -1,6 +1,7 @@
 package dkg
 
 import (
+	"bytes"
 	"errors"
 	"fmt"
 	"math"
@@ -191,6 +192,11 @@ func (d *DKG) ProcessDeals() ([]*dkg.Response, error) {
 		if err != nil {
 			return nil, err
 		}
+		// the verifier recomputed the session id from (dealer, participants, commitments, t) for its
+		// response; the deal must name the same one
+		if !bytes.Equal(verifier.SessionID(), resp.Response.SessionID) {
+			return nil, errors.New("session id in the deal is not the one of its commitments")
+		}
 
 		// If something goes wrong, party complains.
 		if !resp.Response.Status || !commitsOK {
@@ -236,6 +242,12 @@ func (d *DKG) processDealCommits(verifier *vss.Verifier, deal *dkg.Deal) (bool, 
 	decryptedDeal, err := verifier.DecryptDeal(deal.Deal)
 	if err != nil {
 		return false, err
+	}
+
+	// the library takes the threshold (and the session id) from the first deal it is given, so its
+	// own consistency tests compare that deal with itself
+	if int(decryptedDeal.T) != d.Threshold {
+		return false, errors.New("threshold in the deal is not the threshold of the round")
 	}
 
 	participant := d.pubKeys.GetParticipantByIndex(int(deal.Index))
